@@ -18,7 +18,8 @@
    REAL chunks of every corpus and generated template (Corr/CorrC07.v, families chk and wld),
    before and after the peephole pass, on every run. *)
 From TeraV Require Import Model.Value Model.Instr Model.Slice Model.VFormat Model.VM Model.World0 Model.StackCheck
-  Proofs.StackCheckSlice Proofs.StackCheckProofs Proofs.FormatUtf8 Proofs.CompileChecks Proofs.StackCheckWorld0.
+  Proofs.StackCheckSlice Proofs.StackCheckProofs Proofs.FormatUtf8 Proofs.CompileChecks Proofs.StackCheckWorld0 Proofs.StackCheckDepth.
+From TeraV Require Import Spec.Stmt Model.Compile Proofs.CompileAlwaysChecks.
 Local Open Scope nat_scope.
 
 (* ---------- the validator is sound: entry points ---------- *)
@@ -118,6 +119,30 @@ Proof. exact get_item_seq_no_panic. Qed.
 Theorem C07_slice_never_panics : forall opt v a b c, vm_slice opt v a b c <> RErr ErrPanic.
 Proof. exact vm_slice_no_panic. Qed.
 
+(* ---------- the component recursion guard sees recursion through includes ---------- *)
+
+(* Include hands run's component_recursion_depth to the included template unchanged ... *)
+Theorem C07_include_keeps_depth :
+  forall (W : Type) (wr : W -> str -> option W) (wd : world) f tpl ae depth ch ip s o n t2,
+  nth_error ch ip = Some (Include n) -> assoc_get (w_templates wd) n = Some t2 -> caps s = [] ->
+  run W wr wd (S f) tpl ae depth ch ip s o =
+  match run W wr wd f t2 ae depth (t_root_chunk t2) 0 (include_state s) o with
+  | RDone _ o1 => run W wr wd f tpl ae depth ch (S ip) s o1
+  | RFail e => RFail e
+  | ROutOfFuel => ROutOfFuel
+  end.
+Proof. exact include_keeps_depth. Qed.
+
+(* ... and a component call at the limit starts no nested run: it is an error value. So no run
+   is ever nested deeper than w_max_depth component calls, however includes are interleaved
+   (trace-level statement: C05_depth_bounded). *)
+Theorem C07_component_guard :
+  forall (W : Type) (wr : W -> str -> option W) (wd : world) f tpl ae depth ch ip s o i n,
+  nth_error ch ip = Some i -> i = RenderInlineComponent n \/ i = RenderBodyComponent n ->
+  w_max_depth wd < S depth ->
+  exists e, run W wr wd (S f) tpl ae depth ch ip s o = RFail e.
+Proof. exact component_guard. Qed.
+
 (* ---------- format_is_utf8 ---------- *)
 
 (* Everything Value::format writes is made of scalars that occur in the strings inside the
@@ -145,9 +170,45 @@ Proof. exact written_scalars. Qed.
    statement: statements, kwargs, literals with elements, comprehensions, component calls, and
    a correspondence run for the local port (the shared compiler port is on another branch) —
    for all of those the guarantee is the validator run on every real chunk (family chk). *)
-Theorem C07_compile_always_checks_partial : forall e : expr,
+Theorem C07_compile_always_checks_partial : forall e : CompileChecks.expr,
   check_table (compile_print e) a_empty (print_table e) = true.
 Proof. exact compile_print_checks. Qed.
+
+(* compile_always_checks over the SHARED compiler port Model/Compile.v (tied to the real compiler
+   by C03's `compile` correspondence: model listing = real listing before optimisation), for its
+   whole statement language — text, print, if/elif/else, for with key and else, set /
+   set_global, set blocks with filter chains, filter sections, include, break, continue;
+   expressions: constants, variables, loop fields, attributes, not/and/or/==, tests, filters
+   with keyword arguments. For EVERY statement list that is well formed in Compile's sense
+   (wf_body: break/continue only inside a for body and not across a capture — what the parser
+   enforces), the compiled chunk has a table check_table accepts. Proved by induction on
+   expressions and statements with the invariant "a statement leaves (value stack, loop stack,
+   capture count) as it found it; an expression pushes one slot", merge points of if/and/or,
+   Iterate / Jump / Break / Continue resolved to the loop's positions (Proofs/CompileFrag.v,
+   Proofs/CompileAlwaysChecks.v). Not covered because Model/Compile.v does not have them:
+   subscripts, slices, ternaries, arithmetic, literals with elements, comprehensions,
+   components, blocks (C07_compile_always_checks_partial covers the first four over the local
+   port); those are validated per real chunk by family chk. *)
+Theorem C07_compile_always_checks : forall okn (ss : list Stmt.stmt),
+  wf_body okn ss = true -> exists tbl, check_table (compile ss) a_empty tbl = true.
+Proof. exact compile_always_checks. Qed.
+
+(* closed theorem about the compiler model: compiled code of this language, run on any State in
+   a validated world, never reaches a panic site and ends with the three stacks as on entry *)
+Theorem C07_compiled_code_sound :
+  forall (W : Type) (wr : W -> str -> option W) (wd : world) (reg : registry),
+  world_respects wd reg -> world_checked reg wd = true ->
+  forall okn (ss : list Stmt.stmt), wf_body okn ss = true -> refs_resolved reg wd (compile ss) = true ->
+  forall fuel tpl ae depth s o,
+  template_good reg wd tpl = true -> blocks_good wd reg s ->
+  match run W wr wd fuel tpl ae depth (compile ss) 0 s o with
+  | RFail e => e <> ErrPanic /\ e <> ErrOther
+  | ROutOfFuel => True
+  | RDone s' o' =>
+      stack s' = stack s /\ map lf_end_ip (loops s') = map lf_end_ip (loops s) /\
+      length (caps s') = length (caps s) /\ blocks s' = blocks s /\ cur_block s' = cur_block s
+  end.
+Proof. exact compiled_sound. Qed.
 
 (* ... and that is enough: a chunk with ANY accepted table is sound (infer is only a heuristic) *)
 Theorem C07_table_sound :
@@ -167,6 +228,7 @@ Proof. exact table_sound. Qed.
 
 Print Assumptions C07_render_sound.
 Print Assumptions C07_compile_always_checks_partial.
+Print Assumptions C07_compiled_code_sound.
 Print Assumptions C07_component_sound.
 Print Assumptions C07_check_chunk_sound.
 Print Assumptions C07_written_is_utf8.
@@ -228,6 +290,16 @@ Proof.
   split; [vm_compute; reflexivity|split; [apply world0_respects|]].
   split; [eexists; vm_compute; reflexivity|]. split; [eexists; vm_compute; reflexivity|]. vm_compute. reflexivity.
 Qed.
+
+(* Model/Compile.v on `{% for i in a %}{% if i %}{% break %}{% endif %}{% set s | upper %}x{% endset %}
+   {% else %}e{% endfor %}`: well formed, and the inferred table is accepted too *)
+Example C07_ex_compile_model :
+  let ss := [SFor None [105%N] (EVar [97%N])
+               [SIf (EVar [105%N]) [SBreak] [];
+                SSetBlock false [115%N] [SText [120%N]] [([117%N;112%N;112%N;101%N;114%N], [])]]
+               [SText [101%N]]] in
+  wf_body (fun _ => true) ss = true /\ check_chunk (compile ss) = true /\ length (compile ss) = 18.
+Proof. vm_compute. repeat split. Qed.
 
 (* the local compiler port reproduces the real listing of `{{ false and user.name }}` (the
    before-optimisation listing used in Props/C09.v) *)
